@@ -418,3 +418,81 @@ def str_loops(prog, scope, an, floor=10):
                               'between %d and %s characters into %d bytes (loop bound %s, piece %s..%s): not decided' % (
                                   tmin, tmax, cap, e_iv, pl, ph)))
     return RuleResult('STR-LOOP', obs, floor, {})
+
+
+def _reach_from(fn, b, body):
+    seen = set()
+    st = [b]
+    while st:
+        x = st.pop()
+        if x in seen or x is None or x not in body:
+            continue
+        seen.add(x)
+        st.extend(fn.succs(x))
+    return seen
+
+
+def str_grow(prog, scope, floor=3):
+    """STR-GROW: a strcat() in a loop that runs once per input token (its header is not a counted `i < n` test) appends an
+    unbounded number of pieces to a fixed buffer unless the loop itself tests the length first: some condition inside the
+    loop that dominates the strcat reads strlen(<the same destination>) and has an edge that leaves the loop or returns.
+    (mips: every `.suffix` token after a mnemonic was appended to the TOKENLEN buffers instr/instr_case.)"""
+    from nk.cfg import dominators
+    obs = []
+    for fn in sorted(prog.functions(scope), key=lambda f: (f.file, f.line)):
+        if not fn.blocks:
+            continue
+        loops = natural_loops(fn)
+        if not loops:
+            continue
+        dom = None
+        k = 0
+        for c in sorted(fn.calls(), key=lambda x: x['i']):
+            if callee(c) != 'strcat':
+                continue
+            w = fn.where.get(c['i'])
+            if w is None:
+                continue
+            # innermost loop containing the call
+            inside = [(h, body) for h, body in loops.items() if w[0] in body]
+            if not inside:
+                continue
+            h, body = min(inside, key=lambda hb: len(hb[1]))
+            hb = fn.blocks[h]
+            cn = fn.nodes.get(hb.get('cond')) if 'cond' in hb else None
+            counted = False
+            if cn is not None:
+                own = strip(cn)
+                if own['k'] == 'BinaryOperator' and own.get('op') in ('<', '<=', '>', '>=', '!='):
+                    counted = True
+            if counted:
+                continue
+            # the source must be able to be non-empty: a literal "" never grows
+            src = strip(call_args(c)[1], casts=True)
+            if src['k'] == 'StringLiteral' and not (src.get('s') or ''):
+                continue
+            k += 1
+            dst = show(strip(call_args(c)[0], casts=True))
+            if dom is None:
+                dom = dominators(fn)
+            guard = None
+            for b in dom[w[0]]:
+                if b not in body:
+                    continue
+                c2 = fn.nodes.get(fn.blocks[b].get('cond')) if 'cond' in fn.blocks[b] else None
+                if c2 is None:
+                    continue
+                txt = show(c2)
+                if 'strlen(%s)' % dst in txt.replace('strlen(const char *)', 'strlen') or ('strlen' in txt and dst in txt):
+                    guard = c2
+                # `strcmp(dst, "literal") == 0`: the destination is that literal when the append runs, and is not afterwards
+                if 'strcmp' in txt and dst in txt and '"' in txt and fn.blocks[b]['s'] and w[0] in _reach_from(fn, fn.blocks[b]['s'][0], body):
+                    guard = c2
+            obs.append(Ob('STR-GROW', fn.file, c['l'], fn.q, 'strcat#%d:%s' % (k, dst), DISCHARGED if guard is not None else VIOLATED,
+                          '' if guard is not None else '`%s` runs once per pass of a loop that is driven by the input (its header is no counted test) '
+                          'and nothing in the loop compares strlen(%s) with the buffer size first: enough tokens overrun the buffer' % (
+                              show(c)[:50], dst),
+                          'the loop tests strlen(%s) before appending (line %d)' % (dst, guard['l']) if guard is not None else ''))
+    if len(obs) < floor:
+        raise AnalysisBroken('STR-GROW: only %d strcat calls in input-driven loops' % len(obs))
+    return RuleResult('STR-GROW', obs, floor, {})
